@@ -1,4 +1,5 @@
 import MwVerif.Lemmas.Tree.Replace
+import MwVerif.Lemmas.Passes.FixParagraphs
 /-!
 # C05 — document trees stay well-formed (primitive level)
 
@@ -30,5 +31,13 @@ theorem c05_remove_nodup (x : Nat) (t : T) (h : t.ids.Nodup) : (t.remove x).ids.
 example : (T.node 0 0 [] [.node 1 1 [] [.node 2 2 ["a"] [], .node 3 2 ["b"] []], .node 4 2 ["c"] []]).dissolve 1
     = T.node 0 0 [] [.node 2 2 ["a"] [], .node 3 2 ["b"] [], .node 4 2 ["c"] []] := by
   simp [T.dissolve, T.replace, replaceL, T.id, T.children]
+
+/-- **C05 (`fix_paragraphs`).**  The pass keeps the node identities, in document order: no node is
+lost, listed twice or created. -/
+theorem c05_fix_paragraphs_ids (n : Nat) (t : T) : (fixParagraphs n t).ids = t.ids :=
+  (fixParagraphs_order n t).1
+
+theorem c05_fix_paragraphs_nodup (n : Nat) (t : T) (h : t.ids.Nodup) : (fixParagraphs n t).ids.Nodup := by
+  rw [c05_fix_paragraphs_ids]; exact h
 
 end MwVerif.Tree
